@@ -1413,6 +1413,9 @@ class SocketStream(abc.SocketStream):
         with self._send_guard:
             await AsyncIOBackend.checkpoint()
 
+            if self._closed:
+                raise ClosedResourceError
+
             # If a previous send() was cancelled while waiting, the write buffer may still
             # be full; don't pile more data on top of it
             await self._protocol.write_event.wait()
@@ -1454,8 +1457,12 @@ class SocketStream(abc.SocketStream):
                 pass
 
             self._transport.close()
-            await sleep(0)
-            self._transport.abort()
+            try:
+                await sleep(0)
+            finally:
+                # Also when cancelled: a transport that still has data to write would
+                # otherwise never finish closing, and tasks waiting on it would hang
+                self._transport.abort()
 
 
 class _RawSocketMixin:
